@@ -7,7 +7,7 @@ use super::dbsnap::{all_defs, all_usages, def_key, rel};
 use super::model::{Model, Origin, Via};
 use super::observe::Lsp;
 use super::pytext::{render, Item, TokKind, Tst};
-use super::scen_resolve::{abort_to_violation, scan_then, ResolveInput};
+use super::scen_resolve::{abort_to_violation, scan_then, scan_then_pre, ResolveInput};
 use super::simcfg::{replay_list, SimParams};
 use super::util::{fnv, mix, Rng, Sandbox};
 use super::ws::{gen_ws, WsOpts, WsSpec};
@@ -39,6 +39,7 @@ struct Raw {
     refs: BTreeMap<DefK, Vec<(String, usize, usize)>>,
     defs: Vec<(DefK, bool, bool, u8, Option<String>, Option<usize>)>, // key, third_party, plugin, scope, ret, yield
     autouse: BTreeSet<DefK>,
+    ambiguous: BTreeSet<DefK>,
     usages: Vec<(String, usize, usize, usize, String)>,
     goto_usage: BTreeMap<(String, usize, usize), Option<DefK>>,
     available: BTreeMap<String, Vec<(DefK, bool, bool)>>,
@@ -98,6 +99,7 @@ fn opts_for(prop: &str, variant: &str, rng: &mut Rng, tier: Tier) -> WsOpts {
     match prop {
         "C02" => {
             o.self_dep_per_mille = 450;
+            o.helper_self_dep_per_mille = if rng.chance(600) { 500 } else { 0 };
         }
         "C05" => {
             o.same_file_dups = rng.chance(500);
@@ -142,7 +144,7 @@ impl Scenario for Static {
         }
     }
     fn shrink_paths(&self) -> Vec<&'static str> {
-        vec!["/spec/files", "/spec/files/*/items", "/decisions/0"]
+        vec!["/spec/files", "/spec/files/*/items", "/preopen", "/edits", "/decisions/0"]
     }
 
     fn gen(&self, run_seed: u64, tier: Tier) -> Value {
@@ -165,7 +167,40 @@ impl Scenario for Static {
             }
         }
         let sim = SimParams::gen(&mut rng, 3000);
-        serde_json::to_value(ResolveInput { sim, spec, sandbox: None, run_seed, reopen: vec![] }).unwrap()
+        let mut preopen = vec![];
+        if self.prop == "C04" && self.variant != "corpus" && rng.chance(300) {
+            // history "the editor opened the document before the scan reached it"
+            let names = super::pytext::names_pool(o.n_names);
+            let cands: Vec<String> = spec.files.iter().filter(|f| !f.rel.starts_with(".venv") && (f.rel.ends_with("conftest.py") || f.items.iter().any(|i| matches!(i, Item::Test(_))))).map(|f| f.rel.clone()).collect();
+            for _ in 0..rng.range(1, 2) {
+                if cands.is_empty() {
+                    break;
+                }
+                let f = rng.pick(&cands).clone();
+                // the buffer equals the on-disk text: with a different buffer the index keeps stale
+                // definitions of the buffer next to the disk ones (C10's known finding RC-SCAN-NO-CLEANUP),
+                // a state in which lines no longer identify definitions
+                let text = spec.file(&f).map(|pf| render(&pf.items).text).unwrap_or_default();
+                let _ = &names;
+                preopen.push((f, text));
+            }
+        }
+        let mut edits = vec![];
+        if self.prop == "C05" && self.variant != "corpus" && rng.chance(450) {
+            // agreement must also hold after edits made on warm caches (incl. edits that do not parse)
+            let names = super::pytext::names_pool(o.n_names);
+            let cands: Vec<String> = spec.files.iter().filter(|f| !f.rel.starts_with(".venv") && f.rel.ends_with(".py") && !f.rel.ends_with("__init__.py")).map(|f| f.rel.clone()).collect();
+            for _ in 0..rng.range(1, 3) {
+                if cands.is_empty() {
+                    break;
+                }
+                let f = rng.pick(&cands).clone();
+                let cur = spec.file(&f).map(|pf| render(&pf.items).text).unwrap_or_default();
+                let t = super::scen_history::next_version(&mut rng, &spec, &f, &cur, &cur, &names, "C07");
+                edits.push((f, t));
+            }
+        }
+        serde_json::to_value(ResolveInput { sim, spec, sandbox: None, run_seed, reopen: vec![], preopen, edits }).unwrap()
     }
 
     fn exec(&self, input: &Value) -> RunOut {
@@ -182,7 +217,30 @@ impl Scenario for Static {
         let model = Model::new(&inp.spec);
         let prop = self.prop;
         let spec2 = inp.spec.clone();
-        let (oc, raw) = scan_then(&inp.sim, replay_list(input, 0), root.clone(), move |db, root| collect(prop, db, root, &spec2));
+        if !inp.preopen.is_empty() {
+            out.count("fault.document_opened_before_scan", inp.preopen.len() as u64);
+        }
+        let edits = inp.edits.clone();
+        if !edits.is_empty() {
+            out.count("fault.edit_on_warm_caches", edits.len() as u64);
+        }
+        let (oc, raw) = scan_then_pre(&inp.sim, replay_list(input, 0), root.clone(), inp.preopen.clone(), move |db, root| {
+            if edits.is_empty() {
+                return collect(prop, db, root, &spec2);
+            }
+            let _warm = collect(prop, db, root, &spec2);
+            let mut spec3 = spec2.clone();
+            for (f, t) in &edits {
+                db.analyze_file(root.join(f), t);
+                // the edited document is no longer described by the generator's token positions (and position
+                // queries inside a document that does not parse are not comparable): it is queried through the
+                // other documents only
+                if let Some(pf) = spec3.files.iter_mut().find(|pf| pf.rel == *f) {
+                    pf.items = vec![Item::Raw { text: t.clone() }];
+                }
+            }
+            collect(prop, db, root, &spec3)
+        });
         out.absorb_outcome(&oc);
         out.fingerprint = mix(fnv(&serde_json::to_string(&inp.spec).unwrap()), oc.log_hash);
         if let Some(a) = &oc.abort {
@@ -252,11 +310,28 @@ fn collect(prop: &str, db: &std::sync::Arc<crate::fixtures::FixtureDatabase>, ro
         let lsp = Lsp::new(db.clone(), root);
         for d in &defs {
             let refs = db.find_references_for_definition(d);
+            // after open-then-scan two different definitions can share (file, line, name): a stale one of
+            // the buffer and one of the disk text; they are told apart by nothing a client can see, so
+            // their reference sets are merged and the count checks skip that key
+            let k = dkey(root, d);
+            if defs.iter().filter(|x| dkey(root, x) == k).count() > 1 {
+                r.ambiguous.insert(k.clone());
+                let e = r.refs.entry(k).or_default();
+                for u in &refs {
+                    let x = (rel(root, &u.file_path), u.line, u.start_char);
+                    if !e.contains(&x) {
+                        e.push(x);
+                    }
+                }
+                continue;
+            }
             r.refs.insert(dkey(root, d), refs.iter().map(|u| (rel(root, &u.file_path), u.line, u.start_char)).collect());
             // incoming calls through the handler
             let fr = rel(root, &d.file_path);
             if let Some(item) = lsp.prepare(&fr, (d.line - 1) as u32, d.start_char as u32) {
-                if lsp.item_pos(&item) == Some((fr.clone(), d.line)) {
+                // the item must denote this very definition (after open-then-scan a stale definition
+                // can share its line with a different one of the current text)
+                if lsp.item_pos(&item) == Some((fr.clone(), d.line)) && item.get("name").and_then(|n| n.as_str()) == Some(d.name.as_str()) {
                     r.incoming.insert(dkey(root, d), lsp.incoming(&item).map(|v| v.len()));
                 }
             }
@@ -285,6 +360,12 @@ fn collect(prop: &str, db: &std::sync::Arc<crate::fixtures::FixtureDatabase>, ro
                 }
                 for col in t.start..t.end {
                     r.refs_at.insert((file.clone(), t.line, col), lsp.references(file, (t.line - 1) as u32, col as u32));
+                }
+                // references from the self-named parameter concern the parent
+                for p in rd.toks.iter().filter(|p| p.kind == TokKind::FixtureParam && p.line == t.line && p.name == t.name) {
+                    for col in p.start..p.end {
+                        r.refs_at.insert((file.clone(), t.line, col), lsp.references(file, (t.line - 1) as u32, col as u32));
+                    }
                 }
             }
             // tests binding to the innermost override
@@ -377,6 +458,13 @@ fn model_def_matches(model: &Model, i: usize, k: &DefK) -> bool {
     d.file == k.0 && d.line == k.1 && d.name == k.2
 }
 
+fn ok_goto(got: &Option<DefK>, exp: &super::model::Expect, model: &Model) -> bool {
+    match got {
+        None => exp.accept.is_empty(),
+        Some(g) => exp.accept.iter().any(|i| model_def_matches(model, *i, g)),
+    }
+}
+
 fn oracle_c02(out: &mut RunOut, model: &Model, raw: &Raw) {
     for (file, rd) in &model.rendered {
         if !raw.cached.contains(file) {
@@ -406,6 +494,17 @@ fn oracle_c02(out: &mut RunOut, model: &Model, raw: &Raw) {
                         None => exp.accept.is_empty(),
                         Some(g) => exp.accept.iter().any(|i| model_def_matches(model, *i, g)),
                     };
+                    // references from a self-named parameter: the declaration listed first is the parent's
+                    if ex.is_some() && exp.accept.len() == 1 {
+                        if let Some(Some(locs)) = raw.refs_at.get(&(file.clone(), t.line, col)) {
+                            let parent = &model.defs[*exp.accept.iter().next().unwrap()];
+                            if let Some(first) = locs.first() {
+                                if !(first.0 == parent.file && first.1 == parent.line) && ok_goto(got, &exp, model) {
+                                    out.violate("param-references-concern-wrong-fixture", format!("references on the self-named parameter of {} at {}:{}:{} start with {:?}; go-to-definition there lands on the parent {}", model.defs[me].key(), file, t.line, col, first, parent.key()));
+                                }
+                            }
+                        }
+                    }
                     if !ok {
                         let to_self = got.as_ref().map(|g| model_def_matches(model, me, g)).unwrap_or(false);
                         let class = if to_self {
@@ -500,6 +599,9 @@ fn oracle_c04(out: &mut RunOut, model: &Model, raw: &Raw) {
     // counts: code lens, incoming calls, unused list
     for d in &raw.defs {
         let (dk, third_party, _plugin, ..) = (&d.0, d.1, d.2);
+        if raw.ambiguous.contains(dk) {
+            continue;
+        }
         let refs = raw.refs.get(dk).cloned().unwrap_or_default();
         let n = refs.len();
         if !third_party {
@@ -526,7 +628,7 @@ fn oracle_c04(out: &mut RunOut, model: &Model, raw: &Raw) {
         // generated workspaces: the generator's ground truth; verbatim corpus files: the index's own flag
         let autouse = model.defs.iter().find(|m| m.file == dk.0 && m.line == dk.1).map(|m| m.autouse).unwrap_or_else(|| raw.autouse.contains(dk));
         let same_file_same_name = raw.defs.iter().filter(|x| x.0 .0 == dk.0 && x.0 .2 == dk.2).count() > 1;
-        if same_file_same_name {
+        if same_file_same_name || raw.ambiguous.contains(dk) {
             continue; // the CLI keys its counts by (file, name)
         }
         if !d.1 && !autouse && (n == 0) != listed {
